@@ -76,6 +76,9 @@ type Case struct {
 	// resource together with the ones to be rejected in one call (which must return an error and keep the
 	// first resource's rules), the remaining resources in a second call.
 	Batch bool
+	// NestedAt > 0: at that probe invocation (in a condition or an action) the fact method runs another small
+	// knowledge base to its end on the same engine value before the outer run goes on.
+	NestedAt int
 }
 
 // Violation is a broken clause.
@@ -356,7 +359,21 @@ func RunOn(c *Case, p *Prepared, kb *ast.KnowledgeBase) *Report {
 		listeners[i] = recs[i]
 	}
 	main := recs[0]
-	probe.OnCall = func(name string, id int64, n int) { main.Probe(name, id, n) }
+	var theEngine *engine.GruleEngine
+	nestedDone := false
+	probe.OnCall = func(name string, id int64, n int) {
+		if c.NestedAt > 0 && n == c.NestedAt && !nestedDone && theEngine != nil {
+			nestedDone = true
+			for _, r := range recs {
+				r.Mute = true
+			}
+			nestedRun(theEngine)
+			for _, r := range recs {
+				r.Mute = false
+			}
+		}
+		main.Probe(name, id, n)
+	}
 	nonProbe := 0
 	evaluatedNow := map[string]bool{}
 	main.Hook = func(ev *obs.Event) {
@@ -406,7 +423,7 @@ func RunOn(c *Case, p *Prepared, kb *ast.KnowledgeBase) *Report {
 			}
 		}
 	}
-	opts := obs.RunOpts{MaxCycle: c.MaxCycle, ErrOnFail: c.ErrOnFail, Listeners: listeners}
+	opts := obs.RunOpts{MaxCycle: c.MaxCycle, ErrOnFail: c.ErrOnFail, Listeners: listeners, OnEngine: func(e *engine.GruleEngine) { theEngine = e }}
 	if c.UseContext {
 		opts.Ctx = context.Background()
 	}
@@ -442,6 +459,32 @@ func RunOn(c *Case, p *Prepared, kb *ast.KnowledgeBase) *Report {
 	}
 	validate(c, p, rep)
 	return rep
+}
+
+var innerLib *ast.KnowledgeLibrary
+
+// nestedRun executes a small knowledge base of its own (three rules of different salience, several cycles) to
+// quiescence on the given engine value, the way a fact method may do.
+func nestedRun(eng *engine.GruleEngine) {
+	if innerLib == nil {
+		lib, err := obs.Build("rule InnerA salience 5 { when F.I64 < 3 then F.I64 = F.I64 + 1; }\nrule InnerB salience 9 { when F.I64 == 1 && F.I32 == 0 then F.I32 = 1; }\nrule InnerC salience -4 { when F.I64 == 3 && F.I16 == 0 then F.I16 = 1; Retract(\"InnerC\"); }\n")
+		if err != nil {
+			panic("harness: inner rule set: " + err.Error())
+		}
+		innerLib = lib
+	}
+	kb, err := obs.Instance(innerLib)
+	if err != nil {
+		panic("harness: inner instance: " + err.Error())
+	}
+	dc := ast.NewDataContext()
+	if err := dc.Add("F", &facts.Fact{}); err != nil {
+		panic("harness: " + err.Error())
+	}
+	savedMax, savedFlag := eng.MaxCycle, eng.ReturnErrOnFailedRuleEvaluation
+	eng.MaxCycle, eng.ReturnErrOnFailedRuleEvaluation = 20, false
+	_ = eng.Execute(dc, kb)
+	eng.MaxCycle, eng.ReturnErrOnFailedRuleEvaluation = savedMax, savedFlag
 }
 
 func filterNonProbe(evs []obs.Event) []obs.Event {
